@@ -196,12 +196,174 @@ func (br *boundsRun) proveNoWrapAdd(bo *ssa.BinOp) bool {
 // RunNarrowSuccControl: the must-fire example is reported and its two safe
 // twins (widened arithmetic, guarded operand) are not.
 func RunNarrowSuccControl(r *Report) {
-	RunControl(r, "narrowsucc", "ctlNarrowSucc|", func(w *World, rr *Report, fns []*ssa.Function) {
+	RunControl(r, "narrowsucc", "ctlSuccTest|", func(w *World, rr *Report, fns []*ssa.Function) {
 		RunNarrowSucc(w, rr, fns, newBoundsRun(w))
 		for _, o := range rr.Obls {
-			if o.Rule == "narrowsucc" && o.Status == StViolation && (containsFunc(o.Key, "ctlNarrowSuccWide") || containsFunc(o.Key, "ctlNarrowSuccGuard")) {
+			if o.Rule == "narrowsucc" && o.Status == StViolation && (containsFunc(o.Key, "ctlSuccTestWide") || containsFunc(o.Key, "ctlSuccTestGuard")) {
 				r.Fail("control", r.MkKey("control", "narrowsucc", "safe twin "+o.Key), o.Pos, "rule narrowsucc reports a safe example: "+o.Detail, nil)
 			}
 		}
 	})
+}
+
+// narrowbound: a sum, product or left shift computed in uint8/uint16 whose
+// result (possibly widened) is used as a bound in an ordering comparison or
+// is written out (split into bytes, stored into a byte slice) must not wrap:
+// the prover shows that the mathematical result fits the type.  Steps of loop
+// counters (`i++` carried around a loop) belong to the termination rules and
+// are not obligations here.
+func RunNarrowBound(w *World, r *Report, fns []*ssa.Function, br *boundsRun) {
+	r.Rule("narrowbound: no sum, product or left shift is carried out in uint8/uint16 on non-constant values and then used as a loop or range bound (ordering comparison, also after widening) or written out as a count, unless the prover shows that the mathematical result fits the type (dominating checks, type ranges): a count of 65536 becomes 0")
+	for _, fn := range fns {
+		name := fnName(fn)
+		for _, b := range fn.Blocks {
+			for _, ins := range b.Instrs {
+				bo, ok := ins.(*ssa.BinOp)
+				if !ok || (bo.Op != token.MUL && bo.Op != token.ADD && bo.Op != token.SHL) {
+					continue
+				}
+				bt, ok := bo.Type().Underlying().(*types.Basic)
+				if !ok || (bt.Kind() != types.Uint8 && bt.Kind() != types.Uint16) {
+					continue
+				}
+				_, cx := bo.X.(*ssa.Const)
+				_, cy := bo.Y.(*ssa.Const)
+				if cx && cy {
+					continue
+				}
+				if isCounterStep(bo) {
+					continue
+				}
+				use := boundUse(bo, 0)
+				if use == "" {
+					continue
+				}
+				key := r.MkKey("narrowbound", name, fmt.Sprintf("%s in %s used as %s", bo.Op, bt.Name(), use))
+				p := br.prover(fn)
+				var res blin
+				okLin := false
+				switch bo.Op {
+				case token.ADD:
+					res, okLin = p.linOf(bo.X).add(p.linOf(bo.Y))
+				case token.MUL, token.SHL:
+					if k, isC := bo.Y.(*ssa.Const); isC {
+						if n, exact := constant.Int64Val(constant.ToInt(k.Value)); exact {
+							if bo.Op == token.SHL {
+								n = 1 << uint(n)
+							}
+							res, okLin = p.linOf(bo.X).scale(n)
+						}
+					}
+				}
+				if okLin && p.fits(res, bo, false) {
+					r.OK("narrowbound", key, w.Pos(bo.Pos()), "the result is shown to fit the type")
+					continue
+				}
+				r.Fail("narrowbound", key, w.Pos(bo.Pos()), fmt.Sprintf("%s is computed in %s and then used as %s, and the result is not shown to fit the type: at the top of the range it wraps around (65536 becomes 0)", bo.Op, bt.Name(), use), nil)
+			}
+		}
+	}
+}
+
+// isCounterStep: phi + const that flows back into the same phi.
+func isCounterStep(bo *ssa.BinOp) bool {
+	ph, ok := bo.X.(*ssa.Phi)
+	if !ok {
+		ph, ok = bo.Y.(*ssa.Phi)
+	}
+	if !ok {
+		return false
+	}
+	for _, e := range ph.Edges {
+		if e == ssa.Value(bo) {
+			return true
+		}
+	}
+	return false
+}
+
+func boundUse(v ssa.Value, depth int) string {
+	if depth > 4 || v.Referrers() == nil {
+		return ""
+	}
+	for _, ref := range *v.Referrers() {
+		switch x := ref.(type) {
+		case *ssa.Convert:
+			bt, ok := x.Type().Underlying().(*types.Basic)
+			if ok && bt.Kind() == types.Uint8 && depth == 0 {
+				continue
+			}
+			if u := boundUse(x, depth+1); u != "" {
+				return u
+			}
+		case *ssa.ChangeType:
+			if u := boundUse(x, depth+1); u != "" {
+				return u
+			}
+		case *ssa.BinOp:
+			switch x.Op {
+			case token.LSS, token.LEQ, token.GTR, token.GEQ:
+				return "a bound"
+			case token.SHR:
+				// byte(x>>8), byte(x): the value is written out
+				if x.X == v {
+					return "a count that is written out"
+				}
+			}
+		}
+	}
+	return ""
+}
+
+// condFieldBoundedOrHuge is a side condition for reviewed entries whose
+// argument is "format A is only chosen when its size field is small": in
+// function fn every value stored into the struct field named field is, on
+// each path into the store, either a constant of at least 2^20 (a size no
+// real table reaches, i.e. "format not available") or shown by the prover to
+// be at most max.
+func condFieldBoundedOrHuge(w *World, br *boundsRun, fn, field string, max int64) func() (bool, string) {
+	return func() (bool, string) {
+		f := w.Func(fn)
+		if f == nil {
+			return false, fn + " does not resolve"
+		}
+		p := br.prover(f)
+		n := 0
+		okVal := func(v ssa.Value, facts []bfact, at *ssa.BasicBlock) bool {
+			if k, isC := bconstInt(v); isC {
+				return k >= 1<<20 || k <= max
+			}
+			neg, ok := p.linOf(v).scale(-1)
+			return ok && p.prove(facts, neg.addc(max), at, 3)
+		}
+		for _, b := range f.Blocks {
+			for _, in := range b.Instrs {
+				st, ok := in.(*ssa.Store)
+				if !ok {
+					continue
+				}
+				fa, ok := st.Addr.(*ssa.FieldAddr)
+				if !ok || fieldName(fa) != field {
+					continue
+				}
+				n++
+				if ph, isPhi := st.Val.(*ssa.Phi); isPhi {
+					for i, e := range ph.Edges {
+						pred := ph.Block().Preds[i]
+						if !okVal(e, p.edgeFacts(pred, ph.Block()), pred) {
+							return false, fmt.Sprintf("%s: a value stored into %s (from %s) is neither a constant >= 2^20 nor shown to be at most %d", w.Pos(st.Pos()), field, w.Pos(e.Pos()), max)
+						}
+					}
+					continue
+				}
+				if !okVal(st.Val, p.factsAt(b), b) {
+					return false, fmt.Sprintf("%s: the value stored into %s is neither a constant >= 2^20 nor shown to be at most %d", w.Pos(st.Pos()), field, max)
+				}
+			}
+		}
+		if n == 0 {
+			return false, "no store into a field " + field + " found in " + fn
+		}
+		return true, ""
+	}
 }
